@@ -4,6 +4,7 @@ import (
 	"context"
 	"encoding/json"
 	"fmt"
+	"strings"
 	"time"
 
 	"github.com/ali-assar/NATS-Leader-Election/leader"
@@ -297,7 +298,7 @@ func (w *World) runItem(idx int) {
 		if key == "" {
 			key = "g"
 		}
-		m := w.store.put(key, []byte(it.Payload), false, w.now(), "outside", name)
+		m := w.store.put(key, w.expandPayload(it.Payload, key), false, w.now(), "outside", name)
 		w.fanout(m)
 		w.ev(Ev{K: "outside.put", S: name})
 		return
@@ -497,4 +498,66 @@ func (w *World) dispatcher(in *Inst) {
 			w.signal()
 		}
 	}
+}
+
+// expandPayload substitutes the $-macros of the payload alphabet: they refer to the
+// latest record version written by a library instance under key.
+func (w *World) expandPayload(p string, key string) []byte {
+	if !strings.HasPrefix(p, "$") {
+		return []byte(p)
+	}
+	var own []byte
+	for i := len(w.store.Hist) - 1; i >= 0; i-- {
+		m := w.store.Hist[i]
+		if m.Key == key && !m.Del && m.By != "outside" {
+			own = m.Val
+			break
+		}
+	}
+	pl, _ := parsePayload(own)
+	switch p {
+	case "$OWN":
+		return append([]byte(nil), own...)
+	case "$OWN_EXTRA_FIELD":
+		return []byte(fmt.Sprintf(`{"id":%q,"token":%q,"priority":%d,"extra":{"a":[1,2,3]}}`, pl.ID, pl.Token, pl.Prio))
+	case "$SAME_ID_OTHER_TOKEN":
+		return []byte(fmt.Sprintf(`{"id":%q,"token":"not-the-token"}`, pl.ID))
+	case "$OTHER_ID_SAME_TOKEN":
+		return []byte(fmt.Sprintf(`{"id":"X","token":%q}`, pl.Token))
+	case "$TOKEN_ONLY":
+		return []byte(fmt.Sprintf(`{"token":%q}`, pl.Token))
+	case "$ID_ONLY":
+		return []byte(fmt.Sprintf(`{"id":%q}`, pl.ID))
+	case "$CASE_VARIANT_KEYS":
+		return []byte(fmt.Sprintf(`{"ID":%q,"Token":%q}`, pl.ID, pl.Token))
+	case "$DUP_KEYS_LAST_OWN":
+		return []byte(fmt.Sprintf(`{"id":"X","token":"zz","id":%q,"token":%q}`, pl.ID, pl.Token))
+	case "$DUP_KEYS_LAST_OTHER":
+		return []byte(fmt.Sprintf(`{"id":%q,"token":%q,"id":"X","token":"zz"}`, pl.ID, pl.Token))
+	case "$TOKEN_AS_NUMBER":
+		return []byte(fmt.Sprintf(`{"id":%q,"token":12345}`, pl.ID))
+	case "$ID_AS_ARRAY":
+		return []byte(fmt.Sprintf(`{"id":[%q],"token":%q}`, pl.ID, pl.Token))
+	case "$NESTED":
+		return []byte(fmt.Sprintf(`{"record":{"id":%q,"token":%q}}`, pl.ID, pl.Token))
+	case "$TRUNCATED":
+		if len(own) > 3 {
+			return append([]byte(nil), own[:len(own)-3]...)
+		}
+	case "$OWN_TRAILING_GARBAGE":
+		return append(append([]byte(nil), own...), []byte("}}")...)
+	case "$OWN_HIGH_PRIORITY":
+		return []byte(fmt.Sprintf(`{"id":"X","token":"tok-x","priority":9}`))
+	case "$BIG":
+		b := make([]byte, 1<<20)
+		for i := range b {
+			b[i] = 'x'
+		}
+		return b
+	case "$BIG_JSON":
+		return []byte(fmt.Sprintf(`{"id":%q,"token":%q,"pad":"%s"}`, pl.ID, pl.Token, strings.Repeat("y", 1<<20)))
+	case "$INVALID_UTF8":
+		return []byte{'{', '"', 'i', 'd', '"', ':', '"', 0xff, 0xfe, '"', '}'}
+	}
+	return []byte(p)
 }
